@@ -751,7 +751,7 @@ def run_writer_check(prop, tier, seed, faults, design_ref):
     if prop == "C06":
         # the real buffered UDP sink and a metric no datagram can carry: Ok means written, whole, during its own emit
         from . import sock as sock_driver
-        uos = ["UO 32", "UO 512", "UO 1432"] + sock_driver.outage_cases()
+        uos = ["UO 32", "UO 512", "UO 1432"] + sock_driver.outage_cases() + sock_driver.xw_buffered_cases()
         try:
             uoi = common.run_harness("sock", uos, shards=1)
         except common.CheckFailure as e:
@@ -765,7 +765,7 @@ def run_writer_check(prop, tier, seed, faults, design_ref):
         # the real buffered UDP sink over a socket connected to a closed port: the OS refuses every other send
         # (ECONNREFUSED); every emit and flush must return (Ok or the socket's error), nothing may hang or be duplicated
         from . import sock as sock_driver
-        urs = sock_driver.ur_cases() + sock_driver.outage_cases()
+        urs = sock_driver.ur_cases() + sock_driver.outage_cases() + sock_driver.xw_buffered_cases()
         try:
             uimpl = common.run_harness("sock", urs, shards=min(4, len(urs)))
         except common.CheckFailure as e:
